@@ -532,7 +532,7 @@ func genCase(t *rapid.T) Case {
 	}
 	c.Quote = genQuote(t)
 	// input count around the point where its prefix takes three bytes (independent of the output count)
-	if rapid.IntRange(0, 24).Draw(t, "many_in") == 0 {
+	if rapid.IntRange(0, 49).Draw(t, "many_in") == 37 {
 		c.RepIn = rapid.SampledFrom([]int{251, 252, 253, 254}).Draw(t, "total_in") - nin
 	}
 	m := expand(c)
